@@ -76,6 +76,21 @@ def strip_comments(src):
         elif src.startswith("--", i):
             while i < len(src) and src[i] != "\n":
                 i += 1
+        elif src.startswith("'\"'", i):
+            i += 3
+        elif src.startswith("'\\\"'", i):
+            i += 4
+        elif src[i] == '"':
+            # string literal: keep the quotes, drop the contents
+            out.append('""')
+            i += 1
+            while i < len(src) and src[i] != '"':
+                if src[i] == "\\":
+                    i += 1
+                if i < len(src) and src[i] == "\n":
+                    out.append("\n")
+                i += 1
+            i += 1
         else:
             out.append(src[i])
             i += 1
